@@ -126,3 +126,71 @@ META = {
     'assumptions': ['wrap-around, truncating division, signedness of comparison and float32 rounding are inherited from Go\'s operators (no goml code to execute)', 'decimal->binary float conversion and the lexer\'s literal split are outside'],
     'trusted_base': ['Kani 0.68 / CBMC 6.11', 'mirsym MIR interpreter', 'library models listed per obligation', 'z3'],
 }
+
+# ----------------------------------------------------------------------------- O10.5b float literal range through the literal entry point (E2, z3 floating-point theory)
+def ob_float_range(r, tier, seed):
+    W = e2.fresh_world(CRATES); TY = W.tt.find_adt(['tast', 'Ty'], 'compiler'); PR = W.tt.find_adt(['common', 'Prim'], 'compiler')
+    DI = W.tt.find_adt(['diagnostics', 'Diagnostics'], 'diagnostics'); TYP = W.tt.find_adt(['typer', 'Typer'], 'compiler')
+    v = z3.FP('lit', z3.Float64()); tyv = z3.Int('ty')
+    r.bounds = 'Typer::parse_float_literal_with_ty for any f64 value of the parsed literal (symbolic IEEE-754 double incl. infinities and NaN) at type float32 / float64'
+    r.assumptions = ['`str::parse::<f64>` (decimal -> binary conversion) is an environment stub returning the symbolic double', 'diagnostic wording is not checked (symbolic numbers print as one opaque character)',
+                     'oracle: a diagnostic is pushed and/or None returned iff the value is not finite, or the type is float32 and |value| > f32::MAX']
+    W.opaque_int_format = True
+    def ov(f, g):
+        if g.endswith('<impl str>::parse') and f.endswith('::<f64>'):
+            def m_parse_f64_stub(ex, f_, a): return ms.ok(v)
+            return m_parse_f64_stub
+        if 'Argument::new_display' in g or 'Argument::new_debug' in g:
+            return None
+        return None
+    W.overrides = [ov]
+    import mirsym.models_coll as mc
+    old_render = mc.render_arg
+    def render(ex, arg, flags=0, width=None):
+        val = ex.deref(arg.v[0])
+        if ms.is_sym(val) and z3.is_fp(val): return [0xFFFD]
+        return old_render(ex, arg, flags, width)
+    mc.render_arg = render
+    try:
+        def entry(ex):
+            ex.restrict(tyv, [TY.vindex('TFloat32'), TY.vindex('TFloat64')])
+            t, _ = (Agg(TYP.key, 0, [Opaque('uni'), PyVec([]), Opaque('hir_table'), Opaque('results')]), None)
+            h = {0: t, 1: Agg(DI.key, 0, [PyVec([])]), 2: mkstr('1.0'), 3: LazyEnum(TY, tyv, 0, None, 'ty')}
+            res = ex.call('typer::check::<impl typer::Typer>::parse_float_literal_with_ty', [Ref(h, 0), Ref(h, 1), h[2], Ref(h, 3)])
+            return len(h[1].fields[0].items), res.idx
+        res = e2.explore(r, W, entry, [])
+    finally:
+        mc.render_arg = old_render
+    F32MAX = z3.FPVal(3.4028234663852886e38, z3.Float64())
+    found = {}
+    for p in res:
+        r.cases += 1
+        if p.kind != 'ok': found.setdefault('panic', 'parse_float_literal_with_ty panics: %s' % p.value); continue
+        ndiag, some_ = p.value
+        nonfinite = z3.Or(z3.fpIsInf(v), z3.fpIsNaN(v)); toobig = z3.And(tyv == TY.vindex('TFloat32'), z3.fpGT(z3.fpAbs(v), F32MAX))
+        must_reject = z3.Or(nonfinite, toobig)
+        rejected = ndiag > 0
+        m, dt = e2.check(p.pc + [z3.Not(must_reject) if rejected else must_reject], timeout_ms=120000); r.queries += 1; r.solver_s += dt
+        r.nontrivial += 1
+        if m is not None:
+            val = m.eval(v, True); tn = TY.variants[e2.mval(m, tyv)].name
+            key = 'out-of-range-float-accepted' if not rejected else 'in-range-float-rejected'
+            found.setdefault(key, 'float literal with value %s at %s is %s' % (val, tn, 'rejected' if rejected else 'accepted without a diagnostic'))
+        elif len(r.samples) < 3: r.samples.append({'diagnostics': ndiag, 'result': 'Some' if some_ == 1 else 'None'})
+    for k, what in found.items():
+        ok_, detail = True, 'verdict of the real parse_float_literal_with_ty MIR'
+        if k == 'out-of-range-float-accepted':
+            src = 'fn main() -> unit {\n  let big = 1000000000000000000000000000000000000000.0f32;\n  string_println(float32_to_string(big))\n}\n'
+            d = tempfile.mkdtemp(prefix='vf-c10-')
+            try:
+                open(os.path.join(d, 'main.gom'), 'w').write(src)
+                pr = subprocess.run([build.compiler_bin(), 'run', '--dump-go', os.path.join(d, 'main.gom')], capture_output=True, text=True, timeout=60)
+            finally: shutil.rmtree(d, ignore_errors=True)
+            out = pr.stdout + pr.stderr
+            ok_ = 'func main0' in out and 'does not fit' not in out
+            detail = 'goml `let big = 1e39-as-digits f32` is accepted; emitted: ' + ' | '.join(l.strip() for l in out.splitlines() if 'big' in l)[:200]
+        r.findings.append(Finding(k, what, {}, ok_, detail))
+
+_c10_obl = obligations
+def obligations():
+    return _c10_obl() + [Ob('O10.5b-float-literal-range', 'float literal accepted iff finite and within the range of its type (through parse_float_literal_with_ty)', ob_float_range, ('quick', 'thorough'), 2, {})]
